@@ -47,6 +47,12 @@ def Touched (w : World) (op : Op) (z : Nat) : Prop :=
        | .assertMin .. => False
        | .receive f _ h => z = f ∨ z ∈ h.receivers)
   | .factory s _ _ => z = s ∨ z = w.facAddr
+  | .tokTransferFrom _ sp o d _ => z = sp ∨ z = o ∨ z = d
+  | .tokBurnFrom _ sp o _ => z = sp ∨ z = o
+  | .tokDecAllow _ o _ _ => z = o
+  | .tokSendFrom _ sp o d _ h =>
+    z = sp ∨ z = o ∨ z = d ∨ z ∈ h.receivers ∨ (h.isRoute = true ∧ ((w.pair z).isSome ∨ z = w.router)) ∨
+      (∃ P, w.pair d = some P ∧ z = P.lp)
 
 /-- the account that submits an operation -/
 def actorOf : Op → Nat
@@ -58,6 +64,18 @@ def actorOf : Op → Nat
   | .pair s _ _ _ => s
   | .router s _ _ => s
   | .factory s _ _ => s
+  | .tokTransferFrom _ sp _ _ _ => sp
+  | .tokSendFrom _ sp _ _ _ _ => sp
+  | .tokBurnFrom _ sp _ _ => sp
+  | .tokDecAllow _ o _ _ => o
+
+/-- the accounts whose tokens an operation moves with an allowance they granted to the actor (they consented by
+granting it): the `owner` of `TransferFrom` / `SendFrom` / `BurnFrom`; nobody for all other operations -/
+def ownersOf : Op → List Nat
+  | .tokTransferFrom _ _ o _ _ => [o]
+  | .tokSendFrom _ _ o _ _ _ => [o]
+  | .tokBurnFrom _ _ o _ => [o]
+  | _ => []
 
 /-- environment: the addresses the chain allocates to a new pair and its LP token are fresh (the new
 pair address is neither an existing pair nor an existing token contract; the new token address is not an
@@ -177,6 +195,16 @@ def swapsOn (w : World) : Op → List (Nat × Nat × Nat × Nat)
        | .ok w0 => hopTrace w0 (to.getD s) ops
        | .error _ => [])
     else []
+  | .tokSendFrom _ _ _ d amt (.swap offer _ _ _ _) =>
+    (match w.pair d with
+     | some P => [(d, bal w offer d, bal w (P.other offer) d, amt)]
+     | none => [])
+  | .tokSendFrom t sp o d amt (.routerOps ops _ to) =>
+    if (w.pair d).isNone ∧ d = w.router then
+      (match tokTransferFrom w t sp o d amt with
+       | .ok w0 => hopTrace w0 (to.getD sp) ops
+       | .error _ => [])
+    else []
   | .router s funds (.swapOps ops _ to) =>
     (match attach w s w.router funds with
      | .ok w0 => hopTrace w0 (to.getD s) ops
@@ -221,7 +249,7 @@ namespace Halo
 the pair exists with those assets and LP token (decimals may change); the assets are distinct and are not
 the LP token; the LP token is a live cw20 minted only by the pair, with balances summing to at most its
 supply (cw20 conservation) and — once the supply is positive — the reserved unit held by the LP token's own
-address; the addresses involved are distinct contracts -/
+address; the addresses involved are distinct contracts, which have granted no cw20 allowance to anybody -/
 structure PairInv (w : World) (p : Nat) (a0 a1 : Asset) (lp : Nat) : Prop where
   pair : ∃ P, w.pair p = some P ∧ P.a0 = a0 ∧ P.a1 = a1 ∧ P.lp = lp
   distinct : a0 ≠ a1
@@ -235,14 +263,21 @@ structure PairInv (w : World) (p : Nat) (a0 a1 : Asset) (lp : Nat) : Prop where
   lpNoPair : (w.pair lp).isNone
   lpNotRouter : lp ≠ w.router
   pNotRouter : p ≠ w.router
+  /-- neither the pair contract nor the LP token's own address (which holds the reserved unit) has granted an
+  allowance on any cw20 contract: they are contracts that never send `IncreaseAllowance`, so no third party can move
+  their tokens with `TransferFrom` / `SendFrom` / `BurnFrom` -/
+  noAllow : ∀ t T, w.tok t = some T → ∀ s, T.allow p s = none ∧ T.allow lp s = none
 
 /-- the environment's address allocation for a `CreatePair`: the addresses handed to the new pair contract and
-to its LP token are distinct, not in use as a pair, and not the router (`FreshOK` says the rest) -/
+to its LP token are distinct, not in use as a pair, not the router, and have granted no cw20 allowance (`FreshOK` says
+the rest) -/
 structure NewAddrs (w : World) (np nl : Nat) : Prop where
   ne : np ≠ nl
   pairFree : w.pair nl = none
   npNotRouter : np ≠ w.router
   nlNotRouter : nl ≠ w.router
+  /-- the two addresses have never acted: they have granted no allowance on any existing cw20 contract -/
+  noAllow : ∀ t T, w.tok t = some T → ∀ s, T.allow np s = none ∧ T.allow nl s = none
 
 /-- the view of a pair through its (fixed) assets and LP token -/
 def viewOf (w : World) (p : Nat) (a0 a1 : Asset) (lp : Nat) : Nat × Nat × Nat :=
@@ -258,12 +293,14 @@ def NoWindowRun (name : Asset → String) (p : Nat) : World → List Op → Prop
   | _, [] => True
   | w, op :: rest => ¬ WindowedOn w op p ∧ NoWindowRun name p (step name w op) rest
 
-/-- the operations that are swaps: direct, through a cw20 hook, or through the router (both entry points, and a
+/-- the operations that are swaps: direct, through a cw20 hook (`Send`, or `SendFrom` by a spender), or through the router (both entry points, and a
 raw `Receive` sent to the router by anybody, which executes a route as well) -/
 def IsSwapOp : Op → Prop
   | .pair _ _ _ (.swap ..) => True
   | .tokSend _ _ _ _ (.swap ..) => True
   | .tokSend _ _ _ _ (.routerOps ..) => True
+  | .tokSendFrom _ _ _ _ _ (.swap ..) => True
+  | .tokSendFrom _ _ _ _ _ (.routerOps ..) => True
   | .router _ _ (.swapOps ..) => True
   | .router _ _ (.receive _ _ (.routerOps ..)) => True
   | _ => False
